@@ -76,4 +76,102 @@ def asBytesModel51 (a0 a1 a2 a3 a4 : Int) : List Int :=
   let f4 := t4 % 2 ^ 51
   pack51 f0 f1 f2 f3 f4
 
+/-! ### `FieldElement2625::as_bytes` -/
+
+/-- the final bit arrangement of the u32 `as_bytes`: 32 bytes from ten 26/25-bit limbs -/
+def pack26 (f0 f1 f2 f3 f4 f5 f6 f7 f8 f9 : Int) : List Int :=
+  [f0 % 2 ^ 8,
+   f0 / 2 ^ 8 % 2 ^ 8,
+   f0 / 2 ^ 16 % 2 ^ 8,
+   (f0 / 2 ^ 24 + f1 * 4) % 2 ^ 8,
+   f1 / 2 ^ 6 % 2 ^ 8,
+   f1 / 2 ^ 14 % 2 ^ 8,
+   (f1 / 2 ^ 22 + f2 * 8) % 2 ^ 8,
+   f2 / 2 ^ 5 % 2 ^ 8,
+   f2 / 2 ^ 13 % 2 ^ 8,
+   (f2 / 2 ^ 21 + f3 * 32) % 2 ^ 8,
+   f3 / 2 ^ 3 % 2 ^ 8,
+   f3 / 2 ^ 11 % 2 ^ 8,
+   (f3 / 2 ^ 19 + f4 * 64) % 2 ^ 8,
+   f4 / 2 ^ 2 % 2 ^ 8,
+   f4 / 2 ^ 10 % 2 ^ 8,
+   f4 / 2 ^ 18,
+   f5 % 2 ^ 8,
+   f5 / 2 ^ 8 % 2 ^ 8,
+   f5 / 2 ^ 16 % 2 ^ 8,
+   (f5 / 2 ^ 24 + f6 * 2) % 2 ^ 8,
+   f6 / 2 ^ 7 % 2 ^ 8,
+   f6 / 2 ^ 15 % 2 ^ 8,
+   (f6 / 2 ^ 23 + f7 * 8) % 2 ^ 8,
+   f7 / 2 ^ 5 % 2 ^ 8,
+   f7 / 2 ^ 13 % 2 ^ 8,
+   (f7 / 2 ^ 21 + f8 * 16) % 2 ^ 8,
+   f8 / 2 ^ 4 % 2 ^ 8,
+   f8 / 2 ^ 12 % 2 ^ 8,
+   (f8 / 2 ^ 20 + f9 * 64) % 2 ^ 8,
+   f9 / 2 ^ 2 % 2 ^ 8,
+   f9 / 2 ^ 10 % 2 ^ 8,
+   f9 / 2 ^ 18]
+
+/-- hand model of `FieldElement2625::as_bytes` over ideal integers -/
+def asBytesModel26 (a0 a1 a2 a3 a4 a5 a6 a7 a8 a9 : Int) : List Int :=
+  -- `FieldElement2625::reduce`: two interleaved half carry chains, then 9 → 0 (times 19), then 0 → 1
+  let b1 := a1 + a0 / 2 ^ 26
+  let z0 := a0 % 2 ^ 26
+  let b5 := a5 + a4 / 2 ^ 26
+  let z4 := a4 % 2 ^ 26
+  let b2 := a2 + b1 / 2 ^ 25
+  let z1 := b1 % 2 ^ 25
+  let b6 := a6 + b5 / 2 ^ 25
+  let z5 := b5 % 2 ^ 25
+  let b3 := a3 + b2 / 2 ^ 26
+  let l2 := b2 % 2 ^ 26
+  let b7 := a7 + b6 / 2 ^ 26
+  let l6 := b6 % 2 ^ 26
+  let b4 := z4 + b3 / 2 ^ 25
+  let l3 := b3 % 2 ^ 25
+  let b8 := a8 + b7 / 2 ^ 25
+  let l7 := b7 % 2 ^ 25
+  let l5 := z5 + b4 / 2 ^ 26
+  let l4 := b4 % 2 ^ 26
+  let b9 := a9 + b8 / 2 ^ 26
+  let l8 := b8 % 2 ^ 26
+  let c0 := z0 + 19 * (b9 / 2 ^ 25)
+  let l9 := b9 % 2 ^ 25
+  let l1 := z1 + c0 / 2 ^ 26
+  let l0 := c0 % 2 ^ 26
+  -- q = carry bit of h + 19
+  let q0 := (l0 + 19) / 2 ^ 26
+  let q1 := (l1 + q0) / 2 ^ 25
+  let q2 := (l2 + q1) / 2 ^ 26
+  let q3 := (l3 + q2) / 2 ^ 25
+  let q4 := (l4 + q3) / 2 ^ 26
+  let q5 := (l5 + q4) / 2 ^ 25
+  let q6 := (l6 + q5) / 2 ^ 26
+  let q7 := (l7 + q6) / 2 ^ 25
+  let q8 := (l8 + q7) / 2 ^ 26
+  let q := (l9 + q8) / 2 ^ 25
+  -- h + 19 q, carried; the top carry (= 2^255 q) is dropped
+  let t0 := l0 + 19 * q
+  let t1 := l1 + t0 / 2 ^ 26
+  let t2 := l2 + t1 / 2 ^ 25
+  let t3 := l3 + t2 / 2 ^ 26
+  let t4 := l4 + t3 / 2 ^ 25
+  let t5 := l5 + t4 / 2 ^ 26
+  let t6 := l6 + t5 / 2 ^ 25
+  let t7 := l7 + t6 / 2 ^ 26
+  let t8 := l8 + t7 / 2 ^ 25
+  let t9 := l9 + t8 / 2 ^ 26
+  let f0 := t0 % 2 ^ 26
+  let f1 := t1 % 2 ^ 25
+  let f2 := t2 % 2 ^ 26
+  let f3 := t3 % 2 ^ 25
+  let f4 := t4 % 2 ^ 26
+  let f5 := t5 % 2 ^ 25
+  let f6 := t6 % 2 ^ 26
+  let f7 := t7 % 2 ^ 25
+  let f8 := t8 % 2 ^ 26
+  let f9 := t9 % 2 ^ 25
+  pack26 f0 f1 f2 f3 f4 f5 f6 f7 f8 f9
+
 end Dalek.Model.FieldBytes
